@@ -102,6 +102,7 @@ PROPS = {
             {'engine': 'verus', 'name': 'chain_ops', 'tier': 'quick', 'role': 'Map/KeyBy/FilterMap/Filter/Inspect::next and StreamElement::map: one output per surviving input in pull order, kind and timestamp kept, control elements (Watermark, FlushBatch, FlushAndRestart, Terminate) pass through unchanged and are never created or swallowed; filters drop exactly the rejected data elements'},
             {'engine': 'verus', 'name': 'sinks', 'tier': 'quick', 'role': 'ForEach / CollectCountSink / CollectChannelSink::next: every data element consumed exactly once in arrival order (closure call log, running count, channel log); result published / channel closed exactly at Terminate; control elements forwarded unchanged'},
             {'engine': 'verus', 'name': 'flat_map', 'tier': 'quick', 'role': "FlatMap::next: the items of an input element leave one per call in order, stamped with that element's timestamp; the next input is pulled only when the iterator is exhausted, so control elements (Watermark) leave unchanged and only after every derived item"},
+            {'engine': 'verus', 'name': 'sort_merge', 'tier': 'quick', 'role': "JoinLocalSortMerge::{discard_right,next} (NARROWED: the iteration protocol around the merge): sides stored with their keyer's key, sorted at their end marker, tuples only after both sides ended, unmatched right element padded once iff outer, constructor state restored at FlushAndRestart (nothing carried over). The merge loop  is ASSUMED, not verified"},
         ],
         'explanation': 'Verus proof of the per-call contract of Start::next (any number of upstream replicas, any batches): FlushAndRestart is returned exactly when every '
                        'upstream FlushAndRestart of the iteration was consumed (and the per-iteration state restarts), Terminate exactly when every upstream Terminate was consumed, '
@@ -233,6 +234,7 @@ PROPS = {
         'units': [
             {'engine': 'verus', 'name': 'hash_join', 'tier': 'quick', 'role': 'JoinLocalHash::{add_item, side_ended}, JoinVariant::{left_outer,right_outer} + lemma_inner_history (all interleavings) + refinement lemmas'},
             {'engine': 'verus', 'name': 'binary_select', 'tier': 'quick', 'role': 'the two-input receiver that feeds every join: each side delivered completely, in order, wrapped in its variant, with the side end marker before the FlushAndRestart that completes the iteration'},
+            {'engine': 'verus', 'name': 'sort_merge', 'tier': 'quick', 'role': "JoinLocalSortMerge::{discard_right,next} (NARROWED: the iteration protocol around the merge): sides stored with their keyer's key, sorted at their end marker, tuples only after both sides ended, unmatched right element padded once iff outer, constructor state restored at FlushAndRestart (nothing carried over). The merge loop  is ASSUMED, not verified"},
         ],
         'explanation': 'NARROWED scope: the local hash join (inner / left / outer), Verus. Per-call contracts of JoinLocalHash::add_item (an arriving element is paired, in order, with every element the other side '
                        'has stored under its key; if there is none and the other side has ended and this side is outer it is emitted once padded with None; it is stored for future matches iff the other side '
